@@ -123,6 +123,9 @@ func (c *Conversation) receiveTaggedPlaintext(message ValidMessage) (plain Messa
 }
 
 func removeOTRMsgEnvelope(msg encodedMessage) []byte {
+	if len(msg) <= len(msgMarker) {
+		return nil
+	}
 	return msg[len(msgMarker) : len(msg)-1]
 }
 
